@@ -605,8 +605,35 @@ func (m *Machine) runConcurrent(fn *ssa.Function) string {
 			if len(awake) == 0 {
 				return "sleep-set blocked"
 			}
+			// optional preemption bound: once the budget is used up, a goroutine that can
+			// continue is not preempted any more
+			if m.preemptBound > 0 && lastG != nil {
+				canContinue := func(i int) bool { return ts[i].g == lastG || ts[i].partner == lastG }
+				lastEnabled := false
+				for i := range ts {
+					if canContinue(i) {
+						lastEnabled = true
+					}
+				}
+				if lastEnabled && m.preempts >= m.preemptBound {
+					var keep []int
+					for _, i := range awake {
+						if canContinue(i) {
+							keep = append(keep, i)
+						}
+					}
+					if len(keep) == 0 {
+						return "preemption bound"
+					}
+					awake = keep
+				}
+				m.lastEnabledForPreempt = lastEnabled
+			}
 			if m.dpos < len(m.prefix) {
 				choice = m.prefix[m.dpos]
+				if m.concrete != nil && m.dpos >= len(m.prefix) {
+					choice = awake[0]
+				}
 			} else {
 				choice = awake[0]
 				for _, i := range awake[1:] {
@@ -637,6 +664,10 @@ func (m *Machine) runConcurrent(fn *ssa.Function) string {
 			m.sleep = ns
 		}
 		m.schedSteps++
+		if m.preemptBound > 0 && lastG != nil && m.lastEnabledForPreempt && ts[choice].g != lastG && ts[choice].partner != lastG && ts[choice].g.parked.kind != opStart {
+			m.preempts++
+		}
+		m.lastEnabledForPreempt = false
 		{
 			t := ts[choice]
 			d := fmt.Sprintf("%s:%s@%s", t.g.name, opNames[t.g.parked.kind], shortPos(m, t.g.pos))
